@@ -7,6 +7,7 @@ package rpcsim
 import (
 	"context"
 	"fmt"
+	"io"
 	"sort"
 	"strings"
 	"testing"
@@ -58,6 +59,7 @@ type run struct {
 	nextTok  uint64
 	locals   map[uint64]*localCall
 	closed   bool // Close invoked
+	deferEcho bool // the model peer echoes Disembargo(senderLoopback) as a separate move
 	closeRet bool
 	connDead bool // transport failed / abort: the connection is over
 	reports  []string
@@ -293,6 +295,9 @@ func (r *run) peerTask() {
 			// (not tied to the message budget: by the time a Return has come back the budget is usually spent)
 			moves = append(moves, "disembargo", "disembargo")
 		}
+		if len(p.pendingEcho) > 0 && (len(moves) == 0 || !p.lazyEcho) {
+			moves = append(moves, "echo", "echo")
+		}
 		if len(moves) == 0 {
 			simrt.YieldAt("peer-idle")
 			continue
@@ -325,6 +330,8 @@ func (r *run) peerTask() {
 			p.moveReturn()
 		case "disembargo":
 			p.moveDisembargo()
+		case "echo":
+			p.moveEcho()
 		case "hostile":
 			r.hostileBudget--
 			r.peerBudget--
@@ -336,7 +343,7 @@ func (r *run) peerTask() {
 }
 
 func (r *run) peerHasMove() bool {
-	return (r.peerBudget > 0 && !r.closed) || r.pendingTheirQ() || (!r.closed && !r.hostile && r.peer.moveDisembargoPossible())
+	return len(r.peer.pendingEcho) > 0 || (r.peerBudget > 0 && !r.closed) || r.pendingTheirQ() || (!r.closed && !r.hostile && r.peer.moveDisembargoPossible())
 }
 
 func (r *run) pendingTheirQ() bool {
@@ -561,7 +568,28 @@ func (r *run) idleHook(s *simrt.Sched) bool {
 	return false
 }
 
-func (Engine) Run(t *testing.T, tape *simrt.Tape, opt worker.Options) *worker.Outcome {
+// Run: tapes generated from now on carry echo=defer (the model peer sends the echo of a
+// Disembargo as a move of its own instead of at once); older tapes keep their meaning.
+func (e Engine) Run(t *testing.T, tape *simrt.Tape, opt worker.Options) *worker.Outcome {
+	fresh := !tape.Replaying()
+	if fresh {
+		ps := map[string]string{"echo": "defer"}
+		for k, v := range opt.Params {
+			ps[k] = v
+		}
+		opt.Params = ps
+	}
+	oc := e.run0(t, tape, opt)
+	if fresh && oc != nil {
+		if oc.ReplayParams == nil {
+			oc.ReplayParams = map[string]string{}
+		}
+		oc.ReplayParams["echo"] = "defer"
+	}
+	return oc
+}
+
+func (Engine) run0(t *testing.T, tape *simrt.Tape, opt worker.Options) *worker.Outcome {
 	if opt.Property == "C09" {
 		return runSweep(t, tape, opt)
 	}
@@ -600,6 +628,7 @@ func single(t *testing.T, tape *simrt.Tape, opt worker.Options, fc faultCase) (*
 	r := &run{prop: opt.Property, opt: opt, appCalls: map[uint64]*appCall{}, sentTo: map[string][]uint64{}, locals: map[uint64]*localCall{}, fault: fc}
 	// C07 biases the workload towards capability traffic; tapes recorded before the bias existed
 	// carry no "bias" parameter and keep their meaning
+	r.deferEcho = opt.Params["echo"] == "defer"
 	r.capsBias = opt.Property == "C07" && (opt.Params["bias"] == "caps" || (opt.Params["topo"] == "" && !tape.Replaying()))
 	if fc.kind != "" {
 		r.faultsPlanned = 1
@@ -689,6 +718,11 @@ func runSweep(t *testing.T, tape *simrt.Tape, opt worker.Options) *worker.Outcom
 		for i := 1; i <= r0.pipe.nRead; i++ {
 			cases = append(cases, faultCase{"read_err", i}, faultCase{"eof", i})
 		}
+		if r0.pipe.deadlines {
+			for i := 1; i <= r0.pipe.nWrite; i++ {
+				cases = append(cases, faultCase{"write_stall", i})
+			}
+		}
 	}
 	steps := base.Res.Steps
 	stride := 1
@@ -757,6 +791,9 @@ func runSweep(t *testing.T, tape *simrt.Tape, opt worker.Options) *worker.Outcom
 func (r *run) mainTask() {
 	s := r.s
 	r.peer = newPeer(r, &r.toConn)
+	if r.deferEcho {
+		r.peer.lazyEcho = s.Chance("lazy-echo", 1, 2)
+	}
 	if r.opt.Avoid["pending-resolution-call"] {
 		r.guard = s.Chance("guard-on", 7, 8)
 	}
@@ -797,8 +834,9 @@ func (r *run) mainTask() {
 		topo = "C"
 		// (values 5..9 select the packed stream transport with the same chunk sizes; tapes recorded
 		// before it was added keep their meaning)
-		pc := s.Choice("pipe-chunk", 10)
-		r.pipe = &simPipe{r: r, s: s, chunk: []int{0, 1, 7, 8, 64}[pc%5], packed: pc >= 5}
+		// (values 10..19: the same again over a stream with a working SetReadDeadline)
+		pc := s.Choice("pipe-chunk", 20)
+		r.pipe = &simPipe{r: r, s: s, chunk: []int{0, 1, 7, 8, 64}[pc%5], packed: pc%10 >= 5, deadlines: pc >= 10}
 		switch r.fault.kind {
 		case "short_write":
 			r.pipe.shortWriteAt, r.pipe.shortKeep = r.fault.at, 1+s.Choice("short-keep", 24)
@@ -808,11 +846,19 @@ func (r *run) mainTask() {
 			r.pipe.readErrAt = r.fault.at
 		case "eof":
 			r.pipe.eofAt = r.fault.at
+		case "write_stall":
+			// (at%4 bytes of the stalled write get through: 0 keeps frame boundaries, 1-3 tear a frame)
+			r.pipe.writeStallAt, r.pipe.stallKeep = r.fault.at, r.fault.at%4
 		}
-		transport = rpc.NewStreamTransport(r.pipe)
+		var stream io.ReadWriteCloser = r.pipe
+		if r.pipe.deadlines {
+			stream = simPipeDL{r.pipe}
+			s.Probe("stream_with_read_deadlines")
+		}
+		transport = rpc.NewStreamTransport(stream)
 		if r.pipe.packed {
 			topo = "C (packed)"
-			transport = rpc.NewPackedStreamTransport(r.pipe)
+			transport = rpc.NewPackedStreamTransport(stream)
 			s.Probe("packed_stream_transport")
 		}
 	}
@@ -979,12 +1025,15 @@ func (r *run) peerSettle() {
 			if !r.connOpen() {
 				return
 			}
-			// answer whatever the Conn still asks
+			// answer whatever the Conn still asks, and send the echoes the peer still owes
 			for r.pendingTheirQ() && !s.Failed() {
 				p.moveReturn()
 			}
+			for len(p.pendingEcho) > 0 && !s.Failed() {
+				p.moveEcho()
+			}
 			s.Sleep(100 * time.Millisecond) // fake time: everything else runs until it blocks
-			if len(r.toPeer) == 0 && len(r.toConn) == 0 && !r.pendingTheirQ() && !p.forwardPending() {
+			if len(r.toPeer) == 0 && len(r.toConn) == 0 && !r.pendingTheirQ() && !p.forwardPending() && len(p.pendingEcho) == 0 {
 				return
 			}
 		}
